@@ -2,6 +2,7 @@
 from .. import protocol, sendfeed
 
 ID = 'C04'
+PROP_FILES = ['C04', 'C04Potential']
 MODULES = ['OFModel.Zmq.Sender', 'OFModel.Gen.Facts']
 RULE = ('adversarial request feeds of a real non-balanced ZMQSender with 1-4 clients (sync and ephemeral), duplicated / stale / ahead requests, clock steps up to and '
         'beyond the connection time-out; for every synchronised client the feed is cut after its last request (= the stall point) and the publishes made while '
